@@ -349,7 +349,8 @@ class kMinPathErrorCycles(walkmodel.AbstractWalkModelDiGraph):
                     continuous_var=self.path_weights_vars[(i)],
                     product_var=self.pi_vars[(u, v, i)],
                     lb=0,
-                    ub=self.w_max,
+                    # the bound also fixes how many bits the helper uses for the multiplicity: it has to cover the repetition cap
+                    ub=max(self.w_max, self.edge_upper_bounds[(u, v)]),
                     name=f"10_u={u}_v={v}_i={i}",
                 )
 
@@ -372,7 +373,7 @@ class kMinPathErrorCycles(walkmodel.AbstractWalkModelDiGraph):
                         continuous_var=self.path_slacks_vars[i],
                         product_var=self.gamma_vars[(u, v, i)],
                         lb=0,
-                        ub=self.w_max,
+                        ub=max(self.w_max, self.edge_upper_bounds[(u, v)]),
                         name=f"12_u={u}_v={v}_i={i}",
                     )
 
